@@ -73,7 +73,7 @@ def main(tier):
         # bytes belong to the line they start on, the second line lists without bytes
         def sp(st, scope):
             if st["k"] == "insn" and st["form"] != "imp" and rnd.random() < 0.06:
-                st["split"] = True
+                st["split"] = rnd.choice([2, 3])      # (three lines: the one in the middle lists without bytes as well)
         G.walk(prog, sp)
         for fp in files.values():
             G.walk(fp, sp)
